@@ -157,6 +157,13 @@ def handleDisp (st : DispSt) : List String → Option (DispSt × String)
       let post ← parseStore (← stripPrefix "post=" post)
       let deltas ← parseAddrCoins (← stripPrefix "deltas=" deltas)
       some (st, toString (runObsOK m pre post deltas ds))
+  | ["chk", "c11.leavers", _tag, denoms, pre, post, postFailed, deltas] => do
+      let ds := (parseList denoms ",").map String.toList
+      let pre ← parseStore (← stripPrefix "pre=" pre)
+      let post ← parseStore (← stripPrefix "post=" post)
+      let pf ← parseStore (← stripPrefix "postfailed=" postFailed)
+      let deltas ← parseAddrCoins (← stripPrefix "deltas=" deltas)
+      some (st, toString (leaversOK pre post pf deltas ds))
   | ["chk", "c20.txsupply", _tag, before, after] => do
       let b ← (parseList before ",").mapM parseNat
       let a ← (parseList after ",").mapM parseNat
